@@ -5,6 +5,7 @@ package app
 import (
 	"encoding/json"
 	"fmt"
+	"io"
 	"os"
 	"sync"
 	"time"
@@ -26,6 +27,7 @@ import (
 	banktypes "github.com/cosmos/cosmos-sdk/x/bank/types"
 	transfertypes "github.com/cosmos/ibc-go/v8/modules/apps/transfer/types"
 	porttypes "github.com/cosmos/ibc-go/v8/modules/core/05-port/types"
+	"github.com/rs/zerolog"
 
 	cctptypes "github.com/circlefin/noble-cctp/x/cctp/types"
 	ftftypes "github.com/circlefin/noble-fiattokenfactory/x/fiattokenfactory/types"
@@ -90,6 +92,21 @@ func (e *Env) Close() {
 	}
 }
 
+// Logger is the node logger of this process: the no-op logger, or — VERIF_LOGLEVEL=trace|debug|info|warn|error — a real
+// one of that level writing to nowhere (what a node configured with that log_level runs with; C19 replays the same history
+// under different levels: nothing observable may depend on it).
+func Logger() log.Logger {
+	lv := os.Getenv("VERIF_LOGLEVEL")
+	if lv == "" {
+		return log.NewNopLogger()
+	}
+	l, err := zerolog.ParseLevel(lv)
+	if err != nil {
+		return log.NewNopLogger()
+	}
+	return log.NewLogger(io.Discard, log.LevelOption(l))
+}
+
 func Boot(cfg Config) (env *Env, err error) {
 	defer func() {
 		if r := recover(); r != nil {
@@ -102,7 +119,7 @@ func Boot(cfg Config) (env *Env, err error) {
 		return nil, err
 	}
 	a, err := simapp.NewSimApp(
-		log.NewNopLogger(), dbm.NewMemDB(), nil, true,
+		Logger(), dbm.NewMemDB(), nil, true,
 		simtestutil.NewAppOptionsWithFlagHome(dir),
 		baseapp.SetChainID(ChainID),
 	)
